@@ -6,7 +6,7 @@
    threads running Create / Update / Delete and of asynchronous rewrites, any request inputs, any
    environment choice per engine call, sequencer iterations anywhere) from any well-formed store. *)
 From KB Require Import Model.RevSys Model.KeySys Model.C01Cases Model.C04Cases.
-From KB Require Import Proofs.RevSys Proofs.KeySys Proofs.KeySysLog Proofs.KeySysProps.
+From KB Require Import Proofs.RevSys Proofs.KeySys Proofs.KeySysLog Proofs.KeySysProps Proofs.SchedCases.
 Local Open Scope N_scope.
 
 (* ----- RevSys: threads allocate and report in any order; tso.Commit is three atomic steps ----- *)
@@ -68,6 +68,18 @@ Theorem C04_seq_take : forall cidx0 d0 store s, reach cidx0 d0 store s -> enable
   dealt (rs s') = dealt (rs s) /\ committed (rs s') = committed (rs s) + 1.
 Proof. exact k_seq_take. Qed.
 Print Assumptions C04_seq_take.
+
+(* the oracle lemma for schedule cases. Full statement (not proved, see "gaps"): *)
+Definition C04_oracle_sound_full_statement : Prop :=
+  forall c, sched_valid c -> c04_check c = true -> progress_ok c = true.
+(* proved clauses of progress_ok: the samples never decrease, stay below the marker revision, the node did
+   not stall and reached the marker *)
+Theorem C04_oracle_samples_sound_partial : forall c, sched_valid c -> sched_check c = true ->
+  monotone_from (sc_d0 c) (samples c) = true /\
+  forallb (fun x => x <? sc_marker c) (samples c) = true /\
+  sc_stalled c = false /\ (sc_final_committed c =? sc_marker c) = true.
+Proof. exact sched_samples_sound. Qed.
+Print Assumptions C04_oracle_samples_sound_partial.
 
 (* ----- non-vacuity ----- *)
 
